@@ -78,3 +78,25 @@ func TestEVMSmoke(t *testing.T) {
 		}
 	}
 }
+
+func TestBTCSmoke(t *testing.T) {
+	rng := rand.New(rand.NewSource(3))
+	w, err := NewWorld(config.NETWORK_ID_MAIN_NET, pk.NewKeys(rng, 4), pk.NewKey(rng))
+	if err != nil {
+		t.Fatal(err)
+	}
+	if err := w.RegisterAndApprove(ChainSpec{ID: 20, Router: utils.ETH_ROUTER}); err != nil {
+		t.Fatal(err)
+	}
+	s, err := w.NewBTCSource(rng, 15, 20)
+	if err != nil {
+		t.Fatal(err)
+	}
+	a, b, c := s.Encodings(rng)
+	o := w.Do(func() *nat.CallRecord { return s.Import(a, s.Height, s.Proof) })
+	t.Log(o.Rec.Ok, o.Rec.Err, o.Touched(), len(o.Rec.CrossHashes), w.Done(15, s.TxID()))
+	for _, raw := range [][]byte{a, b, c} {
+		rec := s.Import(raw, s.Height, s.Proof)
+		t.Log("replay", rec.Ok, rec.Err)
+	}
+}
